@@ -52,7 +52,7 @@ Proof. apply valid_name_len. Qed.
 Theorem marshal_fields_fwd m b : rust_typed m -> fields_valid m -> opt_all (fun s => len s < 2 ^ 32) (m_object m) ->
   exists b', marshal_fields m b = Ok b' /\ emits (m_be m) b b' (fields_of_msg m).
 Proof.
-  intros T [(Vi & Vd & Vs & Vm & Vp & Ve) Vsig] Hpl. unfold marshal_fields. set (be := m_be m).
+  intros T [(Vi & Vd & Vs & Vm & Vp & Ve) [Vsig Vlive]] Hpl. unfold marshal_fields. set (be := m_be m).
   (* 1 reply serial *)
   destruct (if_some_fwd be (m_reply_serial m) (marshal_header_reply_serial be) (fun _ => True) (u32_field REPLY_SERIAL) b) as (b1 & E1 & M1).
   { intros x b0 _. unfold marshal_header_reply_serial. f_equal. apply u32_writer_fwd. unfold REPLY_SERIAL. lia. }
@@ -101,11 +101,13 @@ Proof.
     - eexists. split; [apply (signature_writer_fwd be); apply Vsig; discriminate|]. now apply emits_one. }
   destruct S8 as (b8 & E8 & M8). rewrite E8. cbn [bind].
   (* 9 unix fds *)
-  assert (S9 : exists b9, if_true (negb (m_nfds m =? 0)) (marshal_header_unix_fds be (m_nfds m mod 2 ^ 32)) b8 = Ok b9
+  assert (S9 : exists b9, if_true (negb (m_nfds m =? 0))
+                            (fun buf => if negb (m_live m =? m_nfds m) then Err else marshal_header_unix_fds be (m_nfds m mod 2 ^ 32) buf) b8 = Ok b9
                           /\ emits be b8 b9 (if m_nfds m =? 0 then [] else [u32_field UNIX_FDS (m_nfds m)])).
   { unfold if_true. destruct (N.eqb_spec (m_nfds m) 0); cbn [negb].
     - exists b8. split; [reflexivity|apply emits_nil].
     - exists (b8 ++ spec_enc be (len b8) (field_val (u32_field UNIX_FDS (m_nfds m)))). split; [|now apply emits_one].
+      rewrite (Vlive n), N.eqb_refl. cbn [negb].
       unfold marshal_header_unix_fds. rewrite N.mod_small by apply (rt_nfds m T). f_equal. apply (u32_writer_fwd be 9). lia. }
   destruct S9 as (b9 & E9 & M9). rewrite E9. cbn [bind].
   exists b9. split; [reflexivity|]. unfold fields_of_msg.
@@ -130,14 +132,15 @@ Proof.
   replace (4 + (4 + 4) + (4 + L)) with (16 + L) by lia. reflexivity.
 Qed.
 
-Lemma marshal_header_fwd m serial : rust_typed m -> fields_valid m -> m_typ m <> MInvalid ->
+Lemma marshal_header_fwd m serial : rust_typed m -> fields_valid m -> m_typ m <> MInvalid -> required_present m ->
   opt_all (fun s => len s < 2 ^ 32) (m_object m) ->
   len (spec_enc_list (m_be m) 16 (map field_val (fields_of_msg m))) <= MAX_ARRAY ->
   exists hbuf, marshal_header m serial = Ok hbuf
                /\ len hbuf = 16 + len (spec_enc_list (m_be m) 16 (map field_val (fields_of_msg m))).
 Proof.
-  intros T Hv Hni Hpl Harr. unfold marshal_header.
+  intros T Hv Hni Hreq Hpl Harr. unfold marshal_header.
   destruct (type_code (m_typ m)) as [c|] eqn:Ec; [|destruct (m_typ m); try discriminate Ec; now elim Hni].
+  apply has_required_fields_iff in Hreq. rewrite Hreq. cbn [negb].
   set (w := write_u32 (m_be m) serial _).
   assert (Lw : len w = 12) by (subst w; unfold write_u32; rewrite !len_app, len_enc; reflexivity).
   destruct (marshal_fields_fwd m (w ++ [0; 0; 0; 0]) T Hv Hpl) as (bf & Ef & Mf). rewrite Ef. cbn [bind].
@@ -150,16 +153,16 @@ Proof.
   eexists. split. reflexivity. rewrite len_insert4 by lia. exact Lbf.
 Qed.
 
-Theorem marshal_accept m serial : rust_typed m -> fields_valid m -> m_typ m <> MInvalid ->
+Theorem marshal_accept m serial : rust_typed m -> fields_valid m -> m_typ m <> MInvalid -> required_present m ->
   len (spec_enc_list (m_be m) 16 (map field_val (fields_of_msg m))) <= MAX_ARRAY ->
   len (spec_header m serial) + len (m_body m) <= 2 ^ 27 ->
   opt_all (fun s => len s < 2 ^ 32) (m_object m) ->      (* implied by the size limit; kept explicit *)
   marshal_msg m serial = Ok (spec_header m serial).
 Proof.
-  intros T Hv Hni Harr Hmax Hpl.
+  intros T Hv Hni Hreq Harr Hmax Hpl.
   assert (Hmax' := Hmax). rewrite len_spec_header in Hmax'.
   set (body := spec_enc_list (m_be m) 16 (map field_val (fields_of_msg m))) in *.
-  destruct (marshal_header_fwd m serial T Hv Hni Hpl Harr) as (hbuf & Eh & Lh). fold body in Lh.
+  destruct (marshal_header_fwd m serial T Hv Hni Hreq Hpl Harr) as (hbuf & Eh & Lh). fold body in Lh.
   assert (R : exists hb, marshal_msg m serial = Ok hb).
   { unfold marshal_msg. rewrite Eh. cbn [bind]. rewrite pad_to_spec by lia. rewrite len_app, len_zeros, Lh.
     unfold Header.MAX_MESSAGE_LEN.
